@@ -107,11 +107,17 @@ class Monitor(object):
         m = re.match(r'^(\d{1,2})[xX]((\d+(\.\d+)?)[hHMK]?)$', code)
         if not m:
             return
-        leg = attach.call(attach.original(self.u.get_distance), m.group(2).upper())
         self.ctx.count('judged.relay-distance')
-        if not leg.ok or leg.value is None:
-            return
-        want = int(m.group(1)) * leg.value
+        mi = re.match(r'^([0-9]+)([HMK]?)$', m.group(2).upper())
+        if mi:
+            # a whole-number leg: its distance is known without asking the code under test (metres, hurdles over that many
+            # metres, kilometres, miles of 1609 m) - however many digits it has
+            want = int(m.group(1)) * int(mi.group(1)) * {'': 1, 'H': 1, 'K': 1000, 'M': 1609}[mi.group(2)]
+        else:
+            leg = attach.call(attach.original(self.u.get_distance), m.group(2).upper())
+            if not leg.ok or leg.value is None:
+                return
+            want = int(m.group(1)) * leg.value
         if d != want:
             self.ctx.violation('relay-distance:not-legs-times-leg', {'fn': 'get_distance', 'code': code}, want, d)
         else:
